@@ -71,7 +71,11 @@ where T: Types
         // sender disconnects the worker's receiver.
         let (closed_tx, _) = std::sync::mpsc::sync_channel(1);
         drop(std::mem::replace(&mut self.flush_tx, closed_tx));
+        #[cfg(feature = "verif-hooks")]
+        crate::verif_hooks::at("caller.disconnect", 0);
 
+        #[cfg(feature = "verif-hooks")]
+        crate::verif_hooks::at("caller.join", 0);
         if let Some(worker) = self.worker.take() {
             let _ = worker.join();
         }
